@@ -1,8 +1,9 @@
 (** Property C06 -- Response body framing follows the HTTP/1.1 message-body-length rules.
     Statements only; proofs are in proofs/C06_proofs.v, where the rule list [rfc_body_mode] and the
     successor rule [successor] transcribe the property statement. *)
-From Hoot Require Import Base Chunk Body Parser Request Call Flow.
-From Hoot.proofs Require Import C06_proofs.
+From Coq Require Import Lia.
+From Hoot Require Import Base Chunk Body Httparse Parser Url Request Call Flow Script.
+From Hoot.proofs Require Import C06_proofs C06_spec C06_values C06_more C05_spec C20_proofs C05_proofs.
 Open Scope N_scope.
 
 (** The decision the code makes is the rule list of the statement, for every method class, every
@@ -49,7 +50,435 @@ Example c06_rules_nonvacuous :
   successor (RLength 1) 302 = TRecvBody /\ successor RNoBody 304 = TCleanup.
 Proof. vm_compute. repeat split. Qed.
 
+(* ====================================================================================== *)
+(** * Strengthening after review 2
+
+    ** 1. A specification that does not share its leaves with the model
+
+    proofs/C06_spec.v restates the rule as the relation [framing] over three notions written from the
+    English text / the RFC grammars, none of which mentions a model function:
+      [cl_numeric v]       : v is 1*DIGIT and [dec_value v] < 2^64;
+      [declares_chunked v] : some comma-separated element of v is, after removing SP / HTAB around
+                             it, equal to "chunked" ignoring ASCII case;
+      [no_body_response], [is_3xx] : the status / method clauses.
+    The theorems below connect them to the model's [all_digits], [parse_dec_u64], [te_has_chunked]
+    and to [for_response]. *)
+
+Theorem c06_all_digits_spec : forall v, all_digits v = true <-> Forall is_DIGIT v.
+Proof. exact all_digits_Forall. Qed.
+
+(** [u64::from_str] on a digit string: non-empty, and the decimal value if it is below 2^64. *)
+Theorem c06_content_length_spec : forall v n,
+  all_digits v = true ->
+  (parse_dec_u64 v = Some n <-> v <> [] /\ dec_value v = n /\ n < TWO_64).
+Proof. exact parse_dec_u64_spec. Qed.
+
+(** The model's chunked test is the specification's on every value without LF, VT, FF, CR -- in
+    particular on every text value, and only text values reach the rule ([lookup_text]). *)
+Theorem c06_declares_chunked_spec : forall v,
+  plain v -> (te_has_chunked v = true <-> declares_chunked v).
+Proof. exact te_has_chunked_spec. Qed.
+
+Theorem c06_text_plain : forall v, is_text v = true -> plain v.
+Proof. exact text_plain. Qed.
+
+(** The rule of the statement is a function of its inputs. *)
+Theorem c06_framing_functional : forall hd cn status v11 cl te a b,
+  framing hd cn status v11 cl te a -> framing hd cn status v11 cl te b -> a = b.
+Proof. exact framing_functional. Qed.
+
+(** The model's decision IS the statement's rule -- every method class, status, version,
+    Content-Length and (text) Transfer-Encoding value, without exception (the former exception, the
+    class [redirect_te_class], was a finding; it has been repaired in the crate, commit 52d1294). *)
+Theorem c06_mode_spec : forall hd cn status v11 cl te out,
+  te_plain te ->
+  (framing hd cn status v11 cl te out <-> for_response (negb v11) hd cn status cl te = out).
+Proof. intros. rewrite for_response_rfc. apply framing_model; assumption. Qed.
+
+(** REGRESSION for the repaired finding (deviation 2 of the review).  [redirect_te_class]: a 3xx (not
+    304, not HEAD) without Content-Length whose Transfer-Encoding field is present but does not give
+    chunked framing (no "chunked" element, or HTTP/1.0).  Such a response is not "without any framing
+    header", so the statement (and RFC 9112 6.3) make it close-delimited.  The code used to answer "no
+    body"; on EVERY member of the class it now answers close-delimited. *)
+Theorem c06_redirect_te_class : forall hd cn status v11 cl te,
+  te_plain te -> redirect_te_class hd cn status v11 cl te ->
+  for_response (negb v11) hd cn status cl te = Ok RClose /\
+  framing hd cn status v11 cl te (Ok RClose).
+Proof. intros. rewrite for_response_rfc. apply redirect_te_class_model; assumption. Qed.
+
+(** ... and at the flow: when the head that was parsed is a member of the class, the reader is
+    close-delimited, [proceed] enters the body state (not Redirect) and the connection is marked for
+    closing, so no body byte can be mistaken for the next response. *)
+Theorem c06_redirect_te_regression_flow : forall f input f' used rsp,
+  i_holder f = HRecvResponse -> NoDup (i_reasons f) ->
+  recv_try_response f input = Ok (f', used, Some rsp) ->
+  redirect_te_class (method_eqb (am_method (c_req (i_call f))) HEAD)
+                    (method_eqb (am_method (c_req (i_call f))) CONNECT)
+                    (rs_status rsp) (negb (rs_version rsp =? 0))
+                    (lookup_text (rs_headers rsp) (s2b "content-length"))
+                    (lookup_text (rs_headers rsp) (s2b "transfer-encoding")) ->
+  c_reader (i_call f') = Some RClose /\
+  exists f'',
+    recv_response_proceed f' = Ok (Some (TRecvBody, f'')) /\
+    In CloseDelimitedBody (i_reasons f'') /\ must_close f'' = true /\
+    c_reader (i_call f'') = Some RClose /\ i_holder f'' = HRecvBody.
+Proof. exact redirect_te_regression_flow. Qed.
+
+Ltac nb_tac := unfold no_body_response; let H := fresh in intros H; decompose [or and] H; try congruence; lia.
+
+(** Two members of the class (they were the witnesses of the finding). *)
+Example c06_redirect_te_members :
+  redirect_te_class false false 302 true None (Some (s2b "gzip")) /\
+  redirect_te_class false false 301 false None (Some (s2b "chunked")) /\
+  for_response false false false 302 None (Some (s2b "gzip")) = Ok RClose /\
+  for_response true false false 301 None (Some (s2b "chunked")) = Ok RClose.
+Proof.
+  split; [|split; [|vm_compute; split; reflexivity]].
+  - split; [nb_tac|]. split; [unfold is_3xx; lia|]. split; [reflexivity|]. split; [discriminate|].
+    intros [_ (v & E & H)]. inversion E; subst v. apply declares_chunked_model in H. vm_compute in H. discriminate H.
+  - split; [nb_tac|]. split; [unfold is_3xx; lia|]. split; [reflexivity|]. split; [discriminate|].
+    intros [H _]. discriminate H.
+Qed.
+
+(** Deviation 1 of the review (NOT a violation of the statement, which says "declares a chunked
+    transfer coding"; it is a deviation from RFC 9112 6.3, which asks for chunked to be the FINAL
+    coding and otherwise prescribes close-delimited): any element equal to "chunked" counts. *)
+Example c06_dev_any_element :
+  declares_chunked (s2b "chunked, gzip") /\
+  for_response false false false 200 None (Some (s2b "chunked, gzip")) = Ok (RChunked DSize) /\
+  for_response false false false 200 (Some (s2b "7")) (Some (s2b "chunked, gzip")) = Ok (RChunked DSize).
+Proof.
+  split; [|vm_compute; split; reflexivity].
+  exists (s2b "chunked"). split.
+  - split.
+    + intros H. vm_compute in H. repeat (destruct H as [H|H]; [discriminate H|]). exact H.
+    + exists [], (s2b ", gzip"). split; [reflexivity|]. split; [left; reflexivity|right; eexists; reflexivity].
+  - exists [], (s2b "chunked"), []. split; [reflexivity|]. split; [constructor|]. split; [constructor|].
+    unfold ci_equal. change (s2b "chunked") with [99; 104; 117; 110; 107; 101; 100].
+    repeat (apply Forall2_cons; [left; reflexivity|]). apply Forall2_nil.
+Qed.
+
+(** Deviation 3 of the review: "numeric" includes the range check -- 2^64 - 1 is accepted, 2^64 and
+    the empty value are errors (the statement's "exactly Content-Length bytes" needs a length the
+    library can count; the specification says so explicitly in [cl_numeric]). *)
+Example c06_dev_cl_range :
+  cl_numeric (s2b "18446744073709551615") /\
+  ~ cl_numeric (s2b "18446744073709551616") /\ ~ cl_numeric [] /\ ~ cl_numeric (s2b "+5") /\
+  for_response false false false 200 (Some (s2b "18446744073709551615")) None = Ok (RLength 18446744073709551615) /\
+  for_response false false false 200 (Some (s2b "18446744073709551616")) None = Err BadContentLengthHeader /\
+  for_response false false false 200 (Some []) None = Err BadContentLengthHeader.
+Proof.
+  split.
+  { split; [discriminate|]. split; [apply all_digits_Forall; vm_compute; reflexivity|vm_compute; reflexivity]. }
+  split; [intros (_ & _ & H); vm_compute in H; discriminate H|].
+  split; [intros (H & _); congruence|].
+  split; [intros (_ & H & _); apply all_digits_Forall in H; vm_compute in H; discriminate H|].
+  vm_compute. repeat split.
+Qed.
+
+(** The relation is inhabited in each of its clauses (through the equivalence). *)
+Example c06_spec_nonvacuous :
+  framing false false 200 true (Some (s2b "5")) (Some (s2b "gzip , cHunKed")) (Ok (RChunked DSize)) /\
+  framing false false 200 false (Some (s2b "5")) (Some (s2b "chunked")) (Ok (RLength 5)) /\
+  framing true false 200 true (Some (s2b "5")) None (Ok RNoBody) /\
+  framing false false 302 true None None (Ok RNoBody) /\
+  framing false false 302 true None (Some (s2b "gzip")) (Ok RClose) /\
+  framing false false 200 true None (Some (s2b "gzip")) (Ok RClose) /\
+  framing true false 200 true (Some (s2b "5x")) None (Err BadContentLengthHeader).
+Proof.
+  repeat split;
+    (apply framing_model;
+     [ first [exact I | apply text_plain; reflexivity]
+     | vm_compute; reflexivity ]).
+Qed.
+
+(** ** 2. Content-Length errors, the composition after the head, status 100 *)
+
+(** A complete well-formed head (within the header limit, status other than 100) whose first
+    Content-Length field is not numeric -- "+5", "5x", empty, 2^64, or a value that is not even text
+    such as bytes >= 0x80 -- makes [try_response] fail with BadContentLengthHeader, whatever the
+    method and the status. *)
+Theorem c06_bad_content_length : forall c h rest v,
+  wf_resp_head h -> rh_status h <> 100 -> (List.length (rh_fields h) <= 128)%nat ->
+  hm_get (rs_headers (response_of h)) (s2b "content-length") = Some v -> ~ cl_numeric v ->
+  call_try_response c (render_response_head h ++ rest) = Err BadContentLengthHeader.
+Proof. exact try_response_bad_cl. Qed.
+
+(** ... and at the flow. *)
+Theorem c06_bad_content_length_flow : forall f h rest v,
+  i_holder f = HRecvResponse ->
+  wf_resp_head h -> rh_status h <> 100 -> (List.length (rh_fields h) <= 128)%nat ->
+  hm_get (rs_headers (response_of h)) (s2b "content-length") = Some v -> ~ cl_numeric v ->
+  recv_try_response f (render_response_head h ++ rest) = Err BadContentLengthHeader.
+Proof.
+  intros f h rest v Hh Hwf Hs Hn Hg Hb. apply recv_try_response_err; [exact Hh|].
+  apply try_response_bad_cl with v; assumption.
+Qed.
+
+(** Conversely a numeric Content-Length never prevents the head from being delivered. *)
+Theorem c06_good_content_length : forall c h rest v,
+  wf_resp_head h -> rh_status h <> 100 -> (List.length (rh_fields h) <= 128)%nat ->
+  hm_get (rs_headers (response_of h)) (s2b "content-length") = Some v -> cl_numeric v ->
+  exists rd, call_try_response c (render_response_head h ++ rest) =
+             Ok (set_reader c (Some rd), Some (len (render_response_head h), response_of h)).
+Proof. exact try_response_good_cl. Qed.
+
+(** On ANY input bytes: if a response (status other than 100) is returned, its first Content-Length
+    field, when present, is text and numeric -- the check cannot be bypassed through [lookup_text]. *)
+Theorem c06_returned_cl_numeric : forall c input c' used rsp v,
+  call_try_response c input = Ok (c', Some (used, rsp)) -> rs_status rsp <> 100 ->
+  hm_get (rs_headers rsp) (s2b "content-length") = Some v ->
+  is_text v = true /\ cl_numeric v.
+Proof. exact try_response_cl_numeric. Qed.
+
+(** [c06_applied] in specification form: the reader installed is the one [framing] prescribes for
+    the returned head. *)
+Theorem c06_applied_spec : forall c input c' used rsp,
+  call_try_response c input = Ok (c', Some (used, rsp)) -> rs_status rsp <> 100 ->
+  let hd := method_eqb (am_method (c_req c)) HEAD in
+  let cn := method_eqb (am_method (c_req c)) CONNECT in
+  let v11 := negb (rs_version rsp =? 0) in
+  let cl := lookup_text (rs_headers rsp) (s2b "content-length") in
+  let te := lookup_text (rs_headers rsp) (s2b "transfer-encoding") in
+  te_plain te /\
+  exists r, c_reader c' = Some r /\ framing hd cn (rs_status rsp) v11 cl te (Ok r).
+Proof. exact try_response_framing. Qed.
+
+(** Flow level, end to end: the status and the reader in [c06_successor] are those of the response
+    that was actually parsed.  After [try_response] returned [rsp], [proceed] moves to the state
+    [successor r (rs_status rsp)] where [r] is the rule applied to [rsp] and the request's method. *)
+Theorem c06_after_head : forall f input f' used rsp,
+  i_holder f = HRecvResponse -> NoDup (i_reasons f) ->
+  recv_try_response f input = Ok (f', used, Some rsp) -> rs_status rsp <> 100 ->
+  exists r f'',
+    rfc_body_mode (method_eqb (am_method (c_req (i_call f))) HEAD)
+                  (method_eqb (am_method (c_req (i_call f))) CONNECT)
+                  (rs_status rsp) (negb (rs_version rsp =? 0))
+                  (lookup_text (rs_headers rsp) (s2b "content-length"))
+                  (lookup_text (rs_headers rsp) (s2b "transfer-encoding")) = Ok r /\
+    c_reader (i_call f') = Some r /\ i_status f' = Some (rs_status rsp) /\
+    recv_response_proceed f' = Ok (Some (successor r (rs_status rsp), f'')) /\
+    c_reader (i_call f'') = Some r /\ i_holder f'' = HRecvBody /\ i_status f'' = Some (rs_status rsp).
+Proof. exact after_head. Qed.
+
+(** Status 100 (the cell excluded from [c06_applied]).  At the call: the interim response is handed
+    back, nothing is installed, it carries no header. *)
+Theorem c06_status_100 : forall c input c' used rsp,
+  call_try_response c input = Ok (c', Some (used, rsp)) -> rs_status rsp = 100 ->
+  c' = c /\ rs_headers rsp = [].
+Proof. exact try_response_100. Qed.
+
+(** At the flow (only when it is not awaiting 100-continue, otherwise the 100 is swallowed): the
+    flow is unchanged but for status / location, has no body mode, and [proceed] stays in
+    RecvResponse waiting for the final response. *)
+Theorem c06_status_100_flow : forall f input f' used rsp,
+  i_holder f = HRecvResponse ->
+  recv_try_response f input = Ok (f', used, Some rsp) -> rs_status rsp = 100 ->
+  i_await_100 f = false /\ rs_headers rsp = [] /\
+  i_call f' = i_call f /\ i_holder f' = HRecvResponse /\
+  (c_reader (i_call f) = None -> recv_response_can_proceed f' = Ok false /\ recv_response_proceed f' = Ok None).
+Proof. exact status_100_flow. Qed.
+
+(** ** Non-vacuity of the call / flow theorems: states obtained by RUNNING the model *)
+
+Definition ex_uri : uri := {| u_scheme := s2b "http"; u_auth := s2b "a.test"; u_pq := s2b "/x" |}.
+Definition ex_get : request := {| rq_method := GET; rq_version := V11; rq_uri := ex_uri; rq_headers := [] |}.
+
+(** GET http://a.test/x: Prepare, SendRequest, head written, RecvResponse. *)
+Definition to_recv_response : list op := [ONew ex_get; OProceed; OWriteHead 1000; OProceed].
+
+Definition flow_at (ops : list op) : option (tag * inner) :=
+  match s_obj (run_ops s_init ops) with ObFlow t f => Some (t, f) | _ => None end.
+
+Definition head_with_cl (status : N) (v : bytes) : resp_head :=
+  {| rh_version := 1; rh_status := status; rh_reason := Some (s2b "OK");
+     rh_fields := [ {| f_name := s2b "Content-Length"; f_ows1 := [32]; f_value := v; f_ows2 := [] |} ] |}.
+
+(** The hypotheses of [c06_bad_content_length(_flow)] on a "+5" and on a non-text value (0x35 0xC8),
+    and the conclusion observed on the flow produced by the model. *)
+Example c06_bad_content_length_nonvacuous :
+  wf_resp_head (head_with_cl 200 (s2b "+5")) /\ wf_resp_head (head_with_cl 404 [53; 200]) /\
+  hm_get (rs_headers (response_of (head_with_cl 200 (s2b "+5")))) (s2b "content-length") = Some (s2b "+5") /\
+  hm_get (rs_headers (response_of (head_with_cl 404 [53; 200]))) (s2b "content-length") = Some [53; 200] /\
+  ~ cl_numeric (s2b "+5") /\ ~ cl_numeric [53; 200] /\ is_text [53; 200] = false /\
+  exists f, flow_at to_recv_response = Some (TRecvResponse, f) /\ i_holder f = HRecvResponse /\
+    recv_try_response f (render_response_head (head_with_cl 200 (s2b "+5")) ++ s2b "abc") = Err BadContentLengthHeader /\
+    recv_try_response f (render_response_head (head_with_cl 404 [53; 200]) ++ s2b "abc") = Err BadContentLengthHeader.
+Proof.
+  assert (Hwf : forall s v, 100 <= s <= 999 -> forallb is_value_token v = true -> no_edge_ws v = true ->
+                            wf_resp_head (head_with_cl s v)).
+  { intros s v Hs Hv He. unfold wf_resp_head, head_with_cl. cbn [rh_version rh_status rh_reason rh_fields].
+    split; [right; reflexivity|]. split; [exact Hs|]. split; [reflexivity|].
+    constructor; [|constructor]. unfold wf_field. cbn [f_name f_ows1 f_value f_ows2].
+    split; [discriminate|]. repeat (split; [first [assumption | vm_compute; reflexivity]|]).
+    first [assumption | vm_compute; reflexivity]. }
+  split; [apply Hwf; [lia|reflexivity|reflexivity]|]. split; [apply Hwf; [lia|reflexivity|reflexivity]|].
+  split; [vm_compute; reflexivity|]. split; [vm_compute; reflexivity|].
+  split; [intros (_ & H & _); apply all_digits_Forall in H; vm_compute in H; discriminate H|].
+  split; [intros (_ & H & _); apply all_digits_Forall in H; vm_compute in H; discriminate H|].
+  split; [vm_compute; reflexivity|].
+  eexists. split; [vm_compute; reflexivity|]. split; [vm_compute; reflexivity|].
+  split; vm_compute; reflexivity.
+Qed.
+
+Definition resp_302 : bytes :=
+  s2b "HTTP/1.1 302 Found" ++ CRLF ++ s2b "location: /y" ++ CRLF ++ s2b "content-length: 0" ++ CRLF ++ CRLF.
+Definition resp_200_len3 : bytes :=
+  s2b "HTTP/1.1 200 OK" ++ CRLF ++ s2b "Content-Length: 3" ++ CRLF ++ s2b "Transfer-Encoding: gzip" ++ CRLF ++ CRLF.
+Definition resp_100 : bytes := s2b "HTTP/1.1 100 Continue" ++ CRLF ++ CRLF.
+
+(** [c06_after_head] / [c06_applied_spec] on the model's own flow: a 302 with an empty body goes to
+    Redirect, a 200 with Content-Length 3 (and a non-chunked Transfer-Encoding) to RecvBody with
+    [RLength 3]; bytes of the body / a next message follow the head in the input. *)
+Example c06_after_head_nonvacuous :
+  exists f, flow_at to_recv_response = Some (TRecvResponse, f) /\
+    i_holder f = HRecvResponse /\ i_reasons f = [] /\
+    (exists f' rsp f'',
+       recv_try_response f (resp_302 ++ s2b "HTTP/1.1 200") = Ok (f', len resp_302, Some rsp) /\
+       rs_status rsp = 302 /\ c_reader (i_call f') = Some (RLength 0) /\
+       recv_response_proceed f' = Ok (Some (TRedirect, f''))) /\
+    (exists f' rsp f'',
+       recv_try_response f (resp_200_len3 ++ s2b "abcHTTP") = Ok (f', len resp_200_len3, Some rsp) /\
+       rs_status rsp = 200 /\ c_reader (i_call f') = Some (RLength 3) /\
+       recv_response_proceed f' = Ok (Some (TRecvBody, f'')) /\ i_holder f'' = HRecvBody).
+Proof.
+  eexists. split; [vm_compute; reflexivity|]. split; [vm_compute; reflexivity|]. split; [vm_compute; reflexivity|].
+  split.
+  - do 3 eexists. split; [vm_compute; reflexivity|]. split; [vm_compute; reflexivity|].
+    split; vm_compute; reflexivity.
+  - do 3 eexists. split; [vm_compute; reflexivity|]. split; [vm_compute; reflexivity|].
+    split; [vm_compute; reflexivity|]. split; vm_compute; reflexivity.
+Qed.
+
+(** [c06_status_100(_flow)] on the model's flow (a GET, which is not awaiting 100-continue). *)
+Example c06_status_100_nonvacuous :
+  exists f f' rsp, flow_at to_recv_response = Some (TRecvResponse, f) /\ i_holder f = HRecvResponse /\
+    recv_try_response f (resp_100 ++ resp_302) = Ok (f', len resp_100, Some rsp) /\ rs_status rsp = 100 /\
+    c_reader (i_call f) = None /\ c_reader (i_call f') = None /\
+    recv_response_proceed f' = Ok None /\
+    recv_try_response f (s2b "HTTP/1.1 100 Continue" ++ CRLF ++ s2b "a: b" ++ CRLF ++ CRLF) = Err HeadersWith100.
+Proof.
+  do 3 eexists. split; [vm_compute; reflexivity|]. split; [vm_compute; reflexivity|].
+  split; [vm_compute; reflexivity|]. repeat split; vm_compute; reflexivity.
+Qed.
+
+(** The repaired finding observed on the model's own flow (regression): a 302 with
+    "Transfer-Encoding: gzip" (HTTP/1.1, no Content-Length) -- a member of [redirect_te_class], see
+    [c06_redirect_te_members] -- now gets a close-delimited reader, the flow enters RecvBody and the
+    connection is marked for closing. *)
+Example c06_redirect_te_gzip_flow :
+  exists f f' rsp f'',
+    flow_at to_recv_response = Some (TRecvResponse, f) /\
+    recv_try_response f (s2b "HTTP/1.1 302 Found" ++ CRLF ++ s2b "Location: /y" ++ CRLF ++
+                         s2b "Transfer-Encoding: gzip" ++ CRLF ++ CRLF ++ s2b "BODYBYTES")
+      = Ok (f', 61, Some rsp) /\
+    (method_eqb (am_method (c_req (i_call f))) HEAD, method_eqb (am_method (c_req (i_call f))) CONNECT,
+     rs_status rsp, negb (rs_version rsp =? 0),
+     lookup_text (rs_headers rsp) (s2b "content-length"),
+     lookup_text (rs_headers rsp) (s2b "transfer-encoding"))
+      = (false, false, 302, true, None, Some (s2b "gzip")) /\
+    c_reader (i_call f') = Some RClose /\
+    recv_response_proceed f' = Ok (Some (TRecvBody, f'')) /\ must_close f'' = true /\
+    close_reason f'' = Some (s2b "response body is close delimited").
+Proof.
+  do 4 eexists. split; [vm_compute; reflexivity|]. split; [vm_compute; reflexivity|].
+  split; [vm_compute; reflexivity|]. split; [vm_compute; reflexivity|].
+  split; [vm_compute; reflexivity|]. split; vm_compute; reflexivity.
+Qed.
+
+(** The same for "Transfer-Encoding: chunked" on an HTTP/1.0 redirect (chunked is not accepted on
+    HTTP/1.0, the header is still a framing header). *)
+Example c06_redirect_te_http10_flow :
+  exists f f' used rsp f'',
+    flow_at to_recv_response = Some (TRecvResponse, f) /\
+    recv_try_response f (s2b "HTTP/1.0 301 Moved" ++ CRLF ++ s2b "Location: /y" ++ CRLF ++
+                         s2b "Transfer-Encoding: chunked" ++ CRLF ++ CRLF ++ s2b "5" ++ CRLF ++ s2b "hello")
+      = Ok (f', used, Some rsp) /\
+    (rs_status rsp, negb (rs_version rsp =? 0),
+     lookup_text (rs_headers rsp) (s2b "content-length"),
+     lookup_text (rs_headers rsp) (s2b "transfer-encoding"))
+      = (301, false, None, Some (s2b "chunked")) /\
+    c_reader (i_call f') = Some RClose /\
+    recv_response_proceed f' = Ok (Some (TRecvBody, f'')) /\ must_close f'' = true.
+Proof.
+  do 5 eexists. split; [vm_compute; reflexivity|]. split; [vm_compute; reflexivity|].
+  split; [vm_compute; reflexivity|]. split; [vm_compute; reflexivity|]. split; vm_compute; reflexivity.
+Qed.
+
+(** RESIDUAL, outside the property's quantifier (header values there are text): a redirect whose only
+    framing header is a Transfer-Encoding field with a NON-TEXT value (here the single byte 0xC8).
+    [header_lookup] / [lookup_text] only see text values, so to the rule the field is absent: the
+    response counts as "without any framing header" and gets no body; the flow goes to Redirect and the
+    connection is not marked for closing. *)
+Example c06_dev_nontext_te_redirect :
+  for_response false false false 302 None None = Ok RNoBody /\
+  exists f f' used rsp f'',
+    flow_at to_recv_response = Some (TRecvResponse, f) /\
+    recv_try_response f (s2b "HTTP/1.1 302 Found" ++ CRLF ++ s2b "Location: /y" ++ CRLF ++
+                         s2b "Transfer-Encoding: " ++ [200] ++ CRLF ++ CRLF ++ s2b "BODYBYTES")
+      = Ok (f', used, Some rsp) /\
+    hm_get (rs_headers rsp) (s2b "transfer-encoding") = Some [200] /\ is_text [200] = false /\
+    lookup_text (rs_headers rsp) (s2b "transfer-encoding") = None /\
+    c_reader (i_call f') = Some RNoBody /\
+    recv_response_proceed f' = Ok (Some (TRedirect, f'')) /\ must_close f'' = false.
+Proof.
+  split; [vm_compute; reflexivity|].
+  do 5 eexists. split; [vm_compute; reflexivity|]. split; [vm_compute; reflexivity|].
+  split; [vm_compute; reflexivity|]. split; [vm_compute; reflexivity|]. split; [vm_compute; reflexivity|].
+  split; [vm_compute; reflexivity|]. split; vm_compute; reflexivity.
+Qed.
+
+(** Not addressed by the statement (noted by the review): only the FIRST Content-Length /
+    Transfer-Encoding field is consulted.  Two conflicting Content-Length fields are accepted and the
+    first one wins (RFC 9112 6.3 item 5 asks for such a message to be refused); a second
+    Transfer-Encoding field saying "chunked" is not seen.  Recorded here as observed behaviour of the
+    model's own flow. *)
+Example c06_dev_first_field_only :
+  exists f, flow_at to_recv_response = Some (TRecvResponse, f) /\
+    (exists f' used rsp,
+       recv_try_response f (s2b "HTTP/1.1 200 OK" ++ CRLF ++ s2b "Content-Length: 3" ++ CRLF ++
+                            s2b "Content-Length: 5" ++ CRLF ++ CRLF) = Ok (f', used, Some rsp) /\
+       hm_get_all (rs_headers rsp) (s2b "content-length") = [s2b "3"; s2b "5"] /\
+       c_reader (i_call f') = Some (RLength 3)) /\
+    (exists f' used rsp,
+       recv_try_response f (s2b "HTTP/1.1 200 OK" ++ CRLF ++ s2b "Transfer-Encoding: gzip" ++ CRLF ++
+                            s2b "Transfer-Encoding: chunked" ++ CRLF ++ CRLF) = Ok (f', used, Some rsp) /\
+       hm_get_all (rs_headers rsp) (s2b "transfer-encoding") = [s2b "gzip"; s2b "chunked"] /\
+       c_reader (i_call f') = Some RClose).
+Proof.
+  eexists. split; [vm_compute; reflexivity|]. split.
+  - do 3 eexists. split; [vm_compute; reflexivity|]. split; vm_compute; reflexivity.
+  - do 3 eexists. split; [vm_compute; reflexivity|]. split; vm_compute; reflexivity.
+Qed.
+
 Print Assumptions c06_mode.
 Print Assumptions c06_applied.
 Print Assumptions c06_successor.
 Print Assumptions c06_rules_nonvacuous.
+Print Assumptions c06_all_digits_spec.
+Print Assumptions c06_content_length_spec.
+Print Assumptions c06_declares_chunked_spec.
+Print Assumptions c06_text_plain.
+Print Assumptions c06_framing_functional.
+Print Assumptions c06_mode_spec.
+Print Assumptions c06_redirect_te_class.
+Print Assumptions c06_redirect_te_regression_flow.
+Print Assumptions c06_redirect_te_members.
+Print Assumptions c06_dev_any_element.
+Print Assumptions c06_dev_cl_range.
+Print Assumptions c06_spec_nonvacuous.
+Print Assumptions c06_bad_content_length.
+Print Assumptions c06_bad_content_length_flow.
+Print Assumptions c06_good_content_length.
+Print Assumptions c06_returned_cl_numeric.
+Print Assumptions c06_applied_spec.
+Print Assumptions c06_after_head.
+Print Assumptions c06_status_100.
+Print Assumptions c06_status_100_flow.
+Print Assumptions c06_bad_content_length_nonvacuous.
+Print Assumptions c06_after_head_nonvacuous.
+Print Assumptions c06_status_100_nonvacuous.
+Print Assumptions c06_dev_first_field_only.
+Print Assumptions c06_redirect_te_gzip_flow.
+Print Assumptions c06_redirect_te_http10_flow.
+Print Assumptions c06_dev_nontext_te_redirect.
